@@ -146,6 +146,12 @@ def twoStepFresnel(Uin, wvl, d1, d2, z):
     C = fouriertransform.ft2(Uitm * numpy.exp( 1j * k/(2*Dz2) * (x1a**2 + y1a**2)), d1a)
     Uout = A*B*C
 
+    #For m != 1 exactly one of the two steps has a negative distance, and a
+    #single FFT step over a negative distance lands on a reversed grid:
+    #undo the point reflection through the central sample
+    if m != 1:
+        Uout = numpy.roll(Uout[::-1, ::-1], 1, axis=(0, 1))
+
     return Uout
 
 def lensAgainst(Uin, wvl, d1, f):
